@@ -133,8 +133,8 @@ theorem frame_messageGetFd (env : PEnv) (ms : MsgSt) (part : Option Msg) (dobody
         exact ⟨trivial, fr2.step (.close fd) r2 rfl (by intro _ h; cases h; exact hfd') (fun _ _ _ => trivial),
           by intro _ h; cases h⟩
 
-theorem frame_execP (fdin : Option Handle) {w0 w : World} (fr : Fr1 (NewS w0) w0 w) :
-    wp NoInv (execP fdin) (fun _ w' => Fr1 (NewS w0) w0 w') w := by
+theorem frame_execP (argv : List Bytes) (fdin : Option Handle) {w0 w : World} (fr : Fr1 (NewS w0) w0 w) :
+    wp NoInv (execP argv fdin) (fun _ w' => Fr1 (NewS w0) w0 w') w := by
   unfold execP
   simp only [bind_eq, pure_eq, call_bind]
   refine wp_bind_mono (R := fun dn w' => Fr1 (NewS w0) w0 w' ∧ ∀ h, dn = some (some h) → w0.handles.length ≤ h) ?_ ?_
@@ -154,7 +154,7 @@ theorem frame_execP (fdin : Option Handle) {w0 w : World} (fr : Fr1 (NewS w0) w0
     | some devnull =>
       dsimp only
       refine wp_call_any fun r => ?_
-      have fr2 := fr1.step .fork r rfl (by intro _ h; cases h) (fun _ _ _ => trivial)
+      have fr2 := fr1.step (.fork argv (childStdin fdin devnull)) r rfl (by intro _ h; cases h) (fun _ _ _ => trivial)
       refine ⟨trivial, ?_⟩
       refine wp_bind_mono (R := fun _ w' => Fr1 (NewS w0) w0 w') ?_ ?_
       · split
